@@ -252,8 +252,33 @@ def run_sweep(case, res=None):
             res.classes["absent:one_byte_sweep"] = res.classes.get("absent:one_byte_sweep", 0) + n
 
 
-def make_shards(tier):
+HUGE_SCHEMES = [s for s in S.SCHEMES if s != "CGKO06.SSE2"]   # SSE-2 tokens cost one PRP call per document: 2**16 is out of reach
+HUGE_CHEAP = ("CJJ14.PiPack", "CJJ14.PiPtr", "CJJ14.Pi2Lev")
+
+
+def huge_cases(scheme, tier, seed):
+    """a keyword contained in 2**16 - 1, 2**16, 2**16 + 1 documents (where counters, counts and widths of 16 bits end),
+    next to two ordinary keywords; default configuration with the capacity raised where the scheme has one"""
+    sizes = [65535, 65536, 65537] if (scheme in HUGE_CHEAP or tier != "quick") else [65536]
+    if scheme in HUGE_CHEAP:
+        sizes.append(131073 if tier == "quick" else 262145)
+    for big in sizes:
+        cfg = S.default_config(scheme)
+        if scheme == "CGKO06.SSE1":
+            cfg.update(param_s=1 << (big + 4).bit_length(), param_dictionary_size=8)
+        desc = S.DESCS[scheme]
+        idsz = max(4, desc.id_size(cfg)) if "param_identifier_size" not in cfg else cfg["param_identifier_size"]
+        if "param_identifier_size" in cfg and cfg["param_identifier_size"] < 3:
+            cfg["param_identifier_size"] = idsz = 4
+        yield {"scheme": scheme, "cfg": cfg, "seed": seed + big, "huge": True,
+               "db": {"id_size": idsz, "kws": [b"the".hex(), b"of".hex(), b"rare".hex()], "lens": [big, 2, 1], "id_mode": "be",
+                      "id_seed": seed % 1000 + 1, "profile": "huge"}}
+
+
+def make_shards(tier, huge=False):
     out = []
+    if huge:
+        out += [{"kind": "huge", "scheme": s} for s in HUGE_SCHEMES]
     for s in S.SCHEMES:
         out.append({"kind": "hyp", "scheme": s, "i": 0})
         out.append({"kind": "explicit", "scheme": s})
@@ -281,6 +306,17 @@ def run_shard_generic(spec, seed, tier, mode):
         else:
             run_absent(case, r)
 
+    if spec["kind"] == "huge":
+        first = {}
+        for case in huge_cases(scheme, tier, seed % 100000):
+            res.count(fp_of(case), True, classes_of(case) + ["explicit:posting_list_around_2**16"], sample=sample_of(case))
+            try:
+                run_present(case)
+            except Violation as v:
+                first.setdefault(v.bucket, (case, str(v)))
+        for bucket, (case, msg) in first.items():
+            res.add_violation(case, msg, bucket)
+        return res
     if spec["kind"] == "hyp":
         n = (120 if tier == "quick" else 1250)
         if scheme == "CGKO06.SSE2":
